@@ -432,6 +432,62 @@ mod store {
         v
     }
 
+    fn mk_conf(d: &std::path::Path, max: u64, mode: &str) -> Config {
+        let mut c = conf(d, max);
+        match mode {
+            "all" => { c.merge_threshold_small_file(u64::MAX).merge_threshold_dead_bytes(0).merge_threshold_fragmentation(0.0); }
+            "frag50" => { c.merge_threshold_small_file(0).merge_threshold_dead_bytes(u64::MAX).merge_threshold_fragmentation(0.5); }
+            "none" => { c.merge_threshold_small_file(0).merge_threshold_dead_bytes(u64::MAX).merge_threshold_fragmentation(1.0); }
+            _ => { c.merge_threshold_small_file(0).merge_threshold_dead_bytes(u64::MAX).merge_threshold_fragmentation(0.0); }
+        }
+        c
+    }
+
+    /// C03 (child process, meant to be killed): run the history on the store in `dir`, printing "ACK <i>" after each
+    /// operation has returned.  No checks here.
+    pub fn crash_run(dir: &str, max: u64, mode: &str, ops: &[&str]) {
+        use std::io::Write;
+        let d = std::path::Path::new(dir);
+        let mut kv = Some(mk_conf(d, max, mode).open().unwrap());
+        println!("OPENED"); std::io::stdout().flush().ok();
+        for (i, op) in ops.iter().enumerate() {
+            let p: Vec<&str> = op.split(' ').collect();
+            let h = kv.as_ref().unwrap().get_handle();
+            let ok = match p[0] {
+                "set" => h.set(b(p[1]), b(p[2])).is_ok(),
+                "del" => h.del(b(p[1])).is_ok(),
+                "merge" => h.verif_merge().is_ok(),
+                "reopen" => { drop(h); kv = None; kv = Some(mk_conf(d, max, mode).open().unwrap()); true }
+                _ => true,
+            };
+            println!("ACK {} {}", i, if ok { "ok" } else { "err" }); std::io::stdout().flush().ok();
+        }
+    }
+
+    /// C03 (after the kill): open the directory the killed process left and compare every key with the map after the
+    /// first `acked` operations, and with the map after one more (the operation in flight, applied).
+    pub fn crash_verify(dir: &str, max: u64, mode: &str, ops: &[&str], acked: usize, label: &str) {
+        let d = std::path::Path::new(dir);
+        let hist = format!("{} | killed {}: {} operations had returned, in flight: `{}`", ops.join("; "), label, acked, ops.get(acked).unwrap_or(&"(none)"));
+        let apply = |m: &mut BTreeMap<String, String>, op: &str| { let p: Vec<&str> = op.split(' ').collect(); match p[0] { "set" => { m.insert(p[1].into(), p[2].into()); } "del" => { m.remove(p[1]); } _ => {} } };
+        let mut ma: BTreeMap<String, String> = BTreeMap::new();
+        for op in ops.iter().take(acked) { apply(&mut ma, op); }
+        let mut mb = ma.clone();
+        if let Some(op) = ops.get(acked) { apply(&mut mb, op); }
+        let kv = match mk_conf(d, max, mode).open() { Ok(k) => k, Err(e) => report("crash-unopenable", "C03", &hist, format!("open failed: {}; files {:?}", e, files(d)), "the directory can be opened") };
+        let h = kv.get_handle();
+        let mut keys: Vec<String> = Vec::new();
+        for op in ops.iter() { let p: Vec<&str> = op.split(' ').collect(); if p.len() > 1 && (p[0] == "set" || p[0] == "del") && !keys.contains(&p[1].to_string()) { keys.push(p[1].into()); } }
+        let mut got: BTreeMap<String, String> = BTreeMap::new();
+        for k in keys.iter() { match h.get(b(k)) { Ok(Some(v)) => { got.insert(k.clone(), String::from_utf8_lossy(&v).to_string()); } Ok(None) => {} Err(e) => report("crash-read-error", "C03", &hist, format!("get {} failed: {}; files {:?}", k, e, files(d)), "a value or None") } }
+        if got != ma && got != mb {
+            report("crash-state", "C03", &hist, format!("after restart the store reads {:?}; files {:?}", got, files(d)), &format!("{:?} (in-flight operation not applied) or {:?} (applied)", ma, mb));
+        }
+        // the recovered store must stay usable
+        if let Err(e) = h.set(b("zz-after-crash"), b("1")) { report("crash-wedged", "C03", &hist, format!("set after restart failed: {}; files {:?}", e, files(d)), "Ok"); }
+        println!("{{\"found\": false}}");
+    }
+
     /// generic history runner: ops are strings "set k v" / "del k" / "get k" / "merge" / "reopen" / "precreate-data N" / "precreate-hint N"
     pub fn run_history(max: u64, mode: &str, ops: &[&str], label: &str) {
         let dir = tempfile::tempdir().unwrap();
@@ -614,6 +670,8 @@ fn main() {
     match a.get(1).map(|s| s.as_str()) {
         Some("frame-search") => frame_search(),
         Some("store-torn-append") => store::torn_append(),
+        Some("store-crash-run") => { let ops: Vec<&str> = a[5].split(';').map(|s| s.trim()).filter(|s| !s.is_empty()).collect(); store::crash_run(&a[2], a[3].parse().unwrap(), &a[4], &ops); }
+        Some("store-crash-verify") => { let ops: Vec<&str> = a[5].split(';').map(|s| s.trim()).filter(|s| !s.is_empty()).collect(); store::crash_verify(&a[2], a[3].parse().unwrap(), &a[4], &ops, a[6].parse().unwrap(), a.get(7).map(|s| s.as_str()).unwrap_or("")); }
         Some("store-search") => store::search(a.get(2).map(|s| s.parse().unwrap()).unwrap_or(0)),
         Some("store-history") => {
             // store-history <max_file_size> <all|none> <label> op;op;...
